@@ -582,6 +582,25 @@ def _run_model_branch(case, ctx):
                 ctx.violation("ModelIsotherm.loading_at/%s/raises" % cls, "loading_at with a fraction/percent request raised", model=name, units=units, req=[rl, rm], exc=got[1])
             elif not close(float(numpy.asarray(got[1]).ravel()[0]), nq * fln, rt):
                 ctx.violation("ModelIsotherm.loading_at/%s/value" % cls, "loading_at with a fraction/percent request differs from the reference conversion", model=name, units=units, req=[rl, rm], got=got[1], expected=nq * fln)
+    # slices of the whole curves between limits: two-sided, one-sided (None = no limit), empty
+    for acc, nat in (("loading", l_nat), ("pressure", p_nat)):
+        srt = numpy.unique(nat)
+        if len(srt) < 5:
+            continue
+        # limits strictly between distinct values of the curve (whether a value *equal* to a limit belongs to the slice is not
+        # something the property fixes; the two isotherm classes differ there)
+        a_, b_ = float((srt[1] + srt[2]) / 2), float((srt[-3] + srt[-2]) / 2)
+        if not (srt[1] < a_ < srt[2] and srt[-3] < b_ < srt[-2]):
+            continue
+        for lim in ((a_, b_), (None, b_), (a_, None), (None, None), (b_, a_)):
+            got = _call(getattr(iso, acc), npts, limits=lim)
+            ctx.case(["model-branch", name, acc + "-limits", [x is None for x in lim], lim[0] is not None and lim[1] is not None and lim[0] > lim[1]])
+            ctx.count("model_branch", acc + "-limits")
+            exp = nat[(nat >= (-numpy.inf if lim[0] is None else lim[0])) & (nat <= (numpy.inf if lim[1] is None else lim[1]))]
+            if got[0] != "ok":
+                ctx.violation("ModelIsotherm.%s/limits/raises" % acc, "a slice of the model curve between limits raised", model=name, limits=lim, exc=got[1])
+            elif not _arr_close(got[1], exp, 1e-12):
+                ctx.violation("ModelIsotherm.%s/limits/selection" % acc, "a slice of the model curve is not the whole curve restricted to the limits", model=name, limits=lim, got=got[1], expected=exp, whole=nat)
     # branch argument
     for br, should in (("ads", True), (None, True), ("des", False)):
         got = _call(iso.loading_at, float(p_nat[1]), branch=br)
